@@ -48,6 +48,36 @@ TYS = {
     "range": ("std::ops::Range<i32>", ["1..3"], False, False, False),
 }
 
+# ---- generic programs: a program may take one type parameter T, instantiated at one argument; its fields
+# may then use the "parameter tokens" below.  A fused token `<ptok>@<arg>` behaves like any other token: its
+# Rust spelling mentions T, its values are those of the instantiation.
+GEN_ARGS = {"i32": ("i32", ["1", "-7"]), "inner": ("Inner", ["Inner::v1()", "Inner::v2()"]), "opt_i32": ("Option<i32>", ["Some(1)", "None"]),
+            "vec_inner": ("Vec<Inner>", ["vec![Inner::v1()]", "vec![]"]), "unite": ("UnitE", ["UnitE::A", "UnitE::B"])}
+# ptok -> (Rust type over T, value expressions over the argument's values v0 / v1, object-like, is an Option)
+PTOKS = {
+    "T": ("T", ["{v0}", "{v1}"], False, False),
+    "opt_T": ("Option<T>", ["Some({v0})", "None"], False, True),
+    "vec_T": ("Vec<T>", ["vec![{v0}, {v1}]", "vec![]"], False, False),
+    "gen_T": ("Gen<T>", ["Gen { g: {v0}, o: None }", "Gen { g: {v1}, o: Some({v0}) }"], True, False),
+    "tup_T": ("(i32, T)", ["(1, {v0})"], False, False),
+    "box_T": ("Box<T>", ["Box::new({v0})"], False, False),
+    "map_T": ("BTreeMap<String, T>", ['BTreeMap::from([("k".to_string(), {v0})])', "BTreeMap::new()"], True, False),
+    "optvec_T": ("Option<Vec<T>>", ["Some(vec![{v0}])", "None"], False, True),
+}
+PARAM_INST = {}          # fused token -> (type with T := ParamT, type with T := the argument)
+for _a, (_aty, _avals) in GEN_ARGS.items():
+    for _p, (_pty, _pvals, _obj, _opt) in PTOKS.items():
+        _tok = "%s@%s" % (_p, _a)
+        _vals = [x.replace("{v0}", _avals[0]).replace("{v1}", _avals[1 % len(_avals)]) for x in _pvals]
+        TYS[_tok] = (_pty, _vals, False, _obj, _opt)
+        import re as _re
+        PARAM_INST[_tok] = (_re.sub(r"\bT\b", "ParamT", _pty), _re.sub(r"\bT\b", _aty, _pty))
+
+
+def gen_config(args, ptoks):
+    return [{"arg": a, "toks": ["%s@%s" % (p, a) for p in ptoks]} for a in args]
+
+
 FIELD_ATTR = {
     "skip": "#[serde(skip)]", "flatten": "#[serde(flatten)]", "inline": "#[ts(inline)]",
     "optional": "#[ts(optional)]", "optional_nullable": "#[ts(optional = nullable)]",
@@ -75,8 +105,8 @@ class Unit:
         self.name, self.src, self.samples, self.serde, self.meta, self.deser = name, src, samples, serde, meta or {}, deser
 
 
-def slice_config(kinds, reprs, cattrsets, shapes, vshapes, vattrsets, tys, fattrsets, maxvariants=1, tys2=("string",), fattrsets2=((),)):
-    return {"kinds": kinds, "reprs": reprs, "cattrsets": cattrsets, "shapes": shapes, "vshapes": vshapes,
+def slice_config(kinds, reprs, cattrsets, shapes, vshapes, vattrsets, tys, fattrsets, maxvariants=1, tys2=("string",), fattrsets2=((),), gen=()):
+    return {"gen": list(gen), "kinds": kinds, "reprs": reprs, "cattrsets": cattrsets, "shapes": shapes, "vshapes": vshapes,
             "vattrsets": vattrsets, "tys": tys, "fattrsets": fattrsets, "maxvariants": maxvariants,
             "tys2": list(tys2), "fattrsets2": [list(x) for x in fattrsets2],
             "objlike": [t for t, v in TYS.items() if v[3]], "options": [t for t, v in TYS.items() if v[4]],
@@ -119,6 +149,12 @@ def render_program(prog, name):
     derive = "#[derive(TS, Serialize, Deserialize, Debug, Clone)]"
     cattrs = " ".join(CONTAINER_ATTR[a] for a in prog["cattrs"])
     samples = []
+    if prog.get("garg"):
+        # a generic definition `<name>G<T>` and the instantiation `<name>` the observations are made of
+        g = render_program(dict(prog, garg=""), name)
+        src = g.src.replace("pub struct %s" % name, "pub struct %sG<T>" % name).replace("pub enum %s" % name, "pub enum %sG<T>" % name)
+        src += " pub type %s = %sG<%s>;" % (name, name, GEN_ARGS[prog["garg"]][0])
+        return Unit(name, src, g.samples, serde=True, meta={"prog": prog})
     if prog["kind"] == "struct":
         body = _fields_src(prog["shape"], prog["fields"])
         semi = ";" if prog["shape"] in ("tuple", "newtype", "tuple0", "unit") else ""
